@@ -201,3 +201,105 @@ def _replay_isolated_copy(model, ob):
                 return {"confirmed": True, "function": "make_isolated_context_copy", "inputs": {"layers (bottom to top)": [kinds[k](j) for j, k in enumerate(combo)]},
                         "expected": "internal keys passed through with the original's values; nothing else leaks", "observed": what}
     return {"confirmed": False}
+
+
+# ================================================================================================ fill content: the render function
+# _nodelist_to_slot_render_func.render_func(ctx, slot_data, slot_ref): the closure that renders the body of a {% fill %}.
+# From the property: fill content is "extended only by its enclosing loops and the slot-data / slot-default aliases": while the
+# fill's nodelist renders, the aliases are the INNERMOST bindings (no variable of the component or of the page can shadow them),
+# exactly one extra layer (the captured loop variables) has been inserted, and afterwards the number of layers is as before.
+SLOTS = "django_components.slots"
+TPL = Obj("Template")
+OSTR = TOpt(TStr)
+OLAYER = TOpt(LAYER)
+RF_GLOBALS = {"data_var": Opt(Str), "default_var": Opt(Str), "extra_context": Opt(LAYER), "template": TPL, "component_name": Str, "slot_name": Opt(Str)}
+
+
+def _last_index_with_component_key(run, args, kwargs, node):
+    """get_last_index(ctx.dicts, lambda d: _COMPONENT_CONTEXT_KEY in d): ASSUMED contract of the generic helper"""
+    lst = run.coerce(args[0], LAYERS).t
+    n = z3.Length(lst)
+    r = z3.FreshConst(OI.sort(), "last_component_layer")
+    j = z3.FreshConst(I, "j")
+    has = lambda k: z3.Select(LAYER.has(lst[k]), COMPKEY)
+    for ax in (z3.Implies(OI.is_none(r), z3.ForAll([j], z3.Implies(z3.And(0 <= j, j < n), z3.Not(has(j))))),
+               z3.Implies(z3.Not(OI.is_none(r)), z3.And(0 <= OI.get(r), OI.get(r) < n, has(OI.get(r)),
+                                                        z3.ForAll([j], z3.Implies(z3.And(OI.get(r) < j, j < n), z3.Not(has(j))))))):
+        run.pc.append(ax)
+        run.solver_add(ax)
+    return Val(OI, r)
+
+
+def _template_render(run, obj, args, kwargs, node):
+    """template.render(ctx): the fill's nodelist renders (user / template code).  Ghost: the layers it sees.  RELY: Django's
+    Template.render leaves the Context's layers as it found them; it may raise anything."""
+    from contracts.stubs_django import dicts_of
+    ctx = args[0]
+    run.ghost["layers_at_render"] = Val(LAYERS, dicts_of(run, ctx))
+    from pyvc.interp import ExcVal, PyRaise
+    if run.choose(2, None) == 1:
+        raise PyRaise(ExcVal("Any", [], site="fill content (template code)"))
+    return Val(TStr, z3.FreshConst(S, "rendered_fill"))
+
+
+REG.stub(("method", "Template", "render"), _template_render)
+
+
+def _Dr(c):
+    return c.ghost["layers_at_render"].t if "layers_at_render" in c.ghost else z3.FreshConst(LAYERS.sort(), "never_rendered")
+
+
+def _alias_innermost(c, var, value_name, unless=None):
+    v = c.run.globals[var].t
+    Dr = _Dr(c)
+    ctx_axioms(c.run, Dr)
+    k = OSTR.get(v)
+    given = z3.And(z3.Not(OSTR.is_none(v)), z3.Length(k) > 0)
+    if unless is not None:
+        u = c.run.globals[unless].t
+        given = z3.And(given, z3.Or(OSTR.is_none(u), z3.Length(OSTR.get(u)) == 0, OSTR.get(u) != k))
+    return z3.Implies(given, z3.And(ctx_idx(Dr, k) >= 0, layer_val(Dr, ctx_idx(Dr, k), k) == c.old(value_name).t))
+
+
+REG.contract(
+    f"{SLOTS}:_nodelist_to_slot_render_func.render_func", prop="C03", types={"ctx": Ref(CTX), "slot_data": Any_, "slot_ref": Any_}, result=Str,
+    globals=RF_GLOBALS, calls={"get_last_index": _last_index_with_component_key},
+    requires=[lambda c: c["ctx"].t > 0, lambda c: z3.Length(D(c, "ctx")) >= 1],
+    modifies=[f"{CTX}.dicts"], raises={"Any": None},
+    ensures={
+        "slot_data_alias_is_the_innermost_binding_while_the_fill_renders": lambda c: _alias_innermost(c, "data_var", "slot_data", unless="default_var"),
+        "slot_default_alias_is_the_innermost_binding_while_the_fill_renders": lambda c: _alias_innermost(c, "default_var", "slot_ref"),
+        "exactly_one_layer_inserted_while_the_fill_renders": lambda c: z3.Length(_Dr(c)) == z3.Length(D(c, "ctx", True)) + 1,
+        "number_of_layers_restored": lambda c: z3.Length(D(c, "ctx")) == z3.Length(D(c, "ctx", True)),
+        "no_other_context_touched": lambda c: _others_unchanged(c, c.old("ctx").t),
+    },
+)
+
+
+@REG.replay(f"{SLOTS}:_nodelist_to_slot_render_func.render_func")
+def _replay_render_func(model, ob):
+    """a fill body `[{{ d.x }}|{{ r }}|{{ item }}]` with data alias d, default alias r and a captured loop variable, rendered
+    in Contexts where the component's own data / the page define variables of the same names"""
+    from django.conf import settings
+    if not settings.configured:
+        from tests.django_test_setup import setup_test_config
+        setup_test_config({"autodiscover": False})
+    from django.template import Context, Template
+    from django_components.slots import _nodelist_to_slot_render_func
+    nodelist = Template("[{{ d.x }}|{{ r }}|{{ item }}]").nodelist
+    for with_component_layer in (True, False):
+        for extra in ({"item": "LOOP"}, None):
+            slot = _nodelist_to_slot_render_func("comp", "s", nodelist, data_var="d", default_var="r", extra_context=extra)
+            ctx = Context({"page": 1, "d": {"x": "PAGE"}, "r": "PAGE"})
+            if with_component_layer:
+                ctx.update({})
+                ctx.update({"_DJC_COMPONENT_CTX": "id", "d": {"x": "COMPONENT"}, "r": "COMPONENT", "item": "COMPONENT"})
+            ctx.update({})
+            depth = len(ctx.dicts)
+            out = slot.content_func(ctx, {"x": "DATA"}, "REF")
+            item = "COMPONENT" if with_component_layer else ("LOOP" if extra else "")
+            want = f"[DATA|REF|{item}]"
+            if str(out) != want or len(ctx.dicts) != depth:
+                return {"confirmed": True, "function": "render_func", "inputs": {"component layer present": with_component_layer, "extra_context": extra, "aliases": "data=d default=r"},
+                        "expected": f"{want} and {depth} layers afterwards", "observed": f"{out} and {len(ctx.dicts)} layers"}
+    return {"confirmed": False}
